@@ -67,6 +67,69 @@ def pdusOf (es : List Elem) : List PduDoc := es.filterMap fun | .pdu p => some p
 
 def framesOf (es : List Elem) : List FrameDoc := es.filterMap fun | .frame f => some f | _ => none
 
+/-! ### the type vocabulary, written out independently of the model
+
+  Names are given as characters (ASCII); `C11_vocabulary` proves that `typeOf` below, which is
+  phrased with the model's `typeInfoForSignalRef`, is this table. -/
+
+/-- an ASCII name as bytes -/
+def nm (cs : List Char) : Bytes := cs.map fun c => BitVec.ofNat 8 c.toNat
+
+def ty (k : TypeInfoKind) (c : StringCoding := .ascii) : TypeInfo :=
+  { kind := k, coding := c, hasVariableInfo := false, hasTraceInfo := false }
+
+/-- the standard signal names; `S_FLOA16` is known and has no supported type -/
+def standardSignals : List (Bytes × Option TypeInfo) := [
+  (nm ['S','_','B','O','O','L'], some (ty .bool)),
+  (nm ['S','_','S','I','N','T','8'], some (ty (.signed .b8))),
+  (nm ['S','_','U','I','N','T','8'], some (ty (.unsigned .b8))),
+  (nm ['S','_','S','I','N','T','1','6'], some (ty (.signed .b16))),
+  (nm ['S','_','U','I','N','T','1','6'], some (ty (.unsigned .b16))),
+  (nm ['S','_','S','I','N','T','3','2'], some (ty (.signed .b32))),
+  (nm ['S','_','U','I','N','T','3','2'], some (ty (.unsigned .b32))),
+  (nm ['S','_','S','I','N','T','6','4'], some (ty (.signed .b64))),
+  (nm ['S','_','U','I','N','T','6','4'], some (ty (.unsigned .b64))),
+  (nm ['S','_','F','L','O','A','1','6'], none),
+  (nm ['S','_','F','L','O','A','3','2'], some (ty (.float .w32))),
+  (nm ['S','_','F','L','O','A','6','4'], some (ty (.float .w64))),
+  (nm ['S','_','S','T','R','G','_','A','S','C','I','I'], some (ty .stringType)),
+  (nm ['S','_','S','T','R','G','_','U','T','F','8'], some (ty .stringType .utf8)),
+  (nm ['S','_','R','A','W','D'], some (ty .raw)),
+  (nm ['S','_','R','A','W'], some (ty .raw))]
+
+/-- the base data types of a CODING -/
+def baseTypes : List (Bytes × TypeInfo) := [
+  (nm ['A','_','U','I','N','T','8'], ty (.unsigned .b8)),
+  (nm ['A','_','I','N','T','8'], ty (.signed .b8)),
+  (nm ['A','_','S','I','N','T','8'], ty (.signed .b8)),
+  (nm ['A','_','U','I','N','T','1','6'], ty (.unsigned .b16)),
+  (nm ['A','_','I','N','T','1','6'], ty (.signed .b16)),
+  (nm ['A','_','S','I','N','T','1','6'], ty (.signed .b16)),
+  (nm ['A','_','U','I','N','T','3','2'], ty (.unsigned .b32)),
+  (nm ['A','_','I','N','T','3','2'], ty (.signed .b32)),
+  (nm ['A','_','S','I','N','T','3','2'], ty (.signed .b32)),
+  (nm ['A','_','U','I','N','T','6','4'], ty (.unsigned .b64)),
+  (nm ['A','_','I','N','T','6','4'], ty (.signed .b64)),
+  (nm ['A','_','S','I','N','T','6','4'], ty (.signed .b64)),
+  (nm ['A','_','F','L','O','A','T','3','2'], ty (.float .w32)),
+  (nm ['A','_','F','L','O','A','T','6','4'], ty (.float .w64)),
+  (nm ['A','_','A','S','C','I','I','S','T','R','I','N','G'], ty .stringType),
+  (nm ['A','_','U','N','I','C','O','D','E','2','S','T','R','I','N','G'], ty .stringType .utf8)]
+
+def lookupName {α : Type} (k : Bytes) : List (Bytes × α) → Option α
+  | [] => none
+  | (n, v) :: t => if k = n then some v else lookupName k t
+
+/-- "mapped from the standard signal names or through signal -> coding -> base data type":
+    a standard name decides; otherwise the signal's coding's base data type (the definitions
+    in force) is looked up in the table -/
+def typeOfRef (es : List Elem) (ref : Bytes) : Option TypeInfo :=
+  match lookupName ref standardSignals with
+  | some r => r
+  | none =>
+    ((lastOf (signalsOf es) ref).bind (lastOf (codingsOf es))).bind fun base =>
+      lookupName base baseTypes
+
 /-- standard signal names, or signal -> coding -> base data type -/
 def typeOf (es : List Elem) (ref : Bytes) : Option TypeInfo :=
   typeInfoForSignalRef ref
